@@ -188,6 +188,7 @@ pub fn run_roundtrip(args: &Args, rep: &mut Report) {
         };
         // auto mode: (chunks for which grouping was predicted, of those stored raw, stored grouped, stored lz4)
         let auto_stats = std::cell::Cell::new((0u64, 0u64, 0u64, 0u64));
+        let v0_done = std::cell::Cell::new(0u64);
         let res = xvcommon::catch(|| -> Result<(u64, bool), String> {
             let (cas, buf, nbytes) = serialize_base(&b)?;
             if nbytes != buf.len() {
@@ -311,6 +312,43 @@ pub fn run_roundtrip(args: &Args, rep: &mut Report) {
                     return Err(format!("uncompressed_chunk_length({i}) wrong"));
                 }
             }
+            // the same chunk data behind the legacy (version 0) footer, which readers still accept: whole object,
+            // a few ranges and the seekable validator must behave as for the current footer
+            if n <= 300 {
+                #[allow(deprecated)]
+                {
+                    let mut v0info = cas_object::CasObjectInfoV0::default();
+                    v0info.cashash = cas.info.cashash;
+                    v0info.num_chunks = cas.info.num_chunks;
+                    v0info.chunk_boundary_offsets = cas.info.chunk_boundary_offsets.clone();
+                    v0info.chunk_hashes = cas.info.chunk_hashes.clone();
+                    let mut v0 = buf[..*r.boundaries.last().unwrap() as usize].to_vec();
+                    let mut footer = Vec::new();
+                    let il = v0info.serialize(&mut footer).map_err(|e| format!("v0 footer serialize: {e}"))? as u32;
+                    v0.extend_from_slice(&footer);
+                    v0.extend_from_slice(&il.to_le_bytes());
+                    let mut rd0 = Cursor::new(&v0);
+                    let c0 = CasObject::deserialize(&mut rd0).map_err(|e| format!("v0 deserialize: {e}"))?;
+                    if c0.info.chunk_boundary_offsets != r.boundaries || c0.info.num_chunks as usize != n {
+                        return Err("v0 footer reads back different boundaries".into());
+                    }
+                    if c0.get_all_bytes(&mut rd0).map_err(|e| format!("v0 get_all_bytes: {e}"))? != b.data {
+                        return Err("v0 get_all_bytes differs from input".into());
+                    }
+                    for _ in 0..4 {
+                        let a = rng.usize_below(n);
+                        let e = rng.urange(a + 1, n);
+                        let got = c0.get_bytes_by_chunk_range(&mut rd0, a as u32, e as u32).map_err(|er| format!("v0 range({a},{e}): {er}"))?;
+                        if got != b.data[starts[a]..starts[e]] {
+                            return Err(format!("v0 get_bytes_by_chunk_range({a},{e}) differs"));
+                        }
+                    }
+                    if c0.get_contents_length().map_err(|e| format!("v0 contents length: {e}"))? != *r.boundaries.last().unwrap() {
+                        return Err("v0 get_contents_length wrong".into());
+                    }
+                    v0_done.set(v0_done.get() + 1);
+                }
+            }
             Ok((nr, fallback))
         });
         match res {
@@ -323,6 +361,7 @@ pub fn run_roundtrip(args: &Args, rep: &mut Report) {
                     rep.count(P, "xorbs_with_more_than_1152_chunks", 1);
                 }
                 let a = auto_stats.get();
+                rep.count(P, "legacy_footer_xorbs_read_back", v0_done.get());
                 rep.count(P, "auto_chunks_grouping_predicted", a.0);
                 rep.count(P, "auto_chunks_grouping_predicted_stored_raw", a.1);
                 rep.count(P, "auto_chunks_grouping_predicted_stored_grouped", a.2);
